@@ -2,6 +2,8 @@ mod common;
 mod audit;
 mod conform;
 mod gcsched;
+mod isolate;
+mod refsyntax;
 mod refscheme;
 mod replay;
 mod data;
@@ -38,6 +40,19 @@ fn main() {
     }
     if args[0] == "--replay" {
         std::process::exit(replay::replay_file(args.get(1).map(|s| s.as_str()).unwrap_or("")));
+    }
+    if args[0] == "--worker" {
+        let mode = args.get(1).cloned().unwrap_or_default();
+        match mode.as_str() {
+            "c17" => {
+                let mut st: Option<conform::Impl> = None;
+                isolate::worker_main(move |case| props::c17::worker_case(&mut st, case));
+            }
+            _ => {
+                eprintln!("unknown worker mode {}", mode);
+                std::process::exit(2);
+            }
+        }
     }
     if args[0] == "--bench" {
         let text = args.get(1).cloned().unwrap_or_default();
@@ -96,6 +111,7 @@ fn main() {
         "C14" => props::c14::run(&mk("C14")),
         "C15" => props::c15::run(&mk("C15")),
         "C16" => props::c16::run(&mk("C16")),
+        "C17" => props::c17::run(&mk("C17")),
         "C18" => props::c18::run(&mk("C18")),
         "C20" => props::c20::run(&mk("C20")),
         _ => {
